@@ -32,10 +32,10 @@ Inductive res := ROk | RErr (m : nat) | RInvalid.
    box_message; irrelevant for [step]), hfail (its handler returns Err),
    box (calls made from inside box_message), hcalls (calls made by its handler) *)
 Inductive call :=
-| CSend (pid : N) (wrong boxok gate hfail : bool) (box hcalls : list call)
+| CSend (pid : nat) (wrong boxok gate hfail : bool) (box hcalls : list call)
 | CDrain | CStop | CKill.
 
-Record minfo := mkInfo { pid : N; wrong : bool; boxok : bool; gate : bool; hfail : bool;
+Record minfo := mkInfo { pid : nat; wrong : bool; boxok : bool; gate : bool; hfail : bool;
                          box : list call; hcalls : list call }.
 
 (* marker attempt = send_drain_marker: load; loop { give up | CAS }; channel send *)
@@ -72,7 +72,7 @@ Inductive cpc :=
 
 (* ghost log of observable events, in real-time order *)
 Inductive ev :=
-| EBegin (i : nat) | EEnd (i : nat) (r : res) | EDrainEnd (ok : bool)
+| EBegin (i : nat) (w : bool) | EEnd (i : nat) (r : res) | EDrainEnd (ok : bool)
 | EHandle (i : nat) | EExit (r : reason) | EStopReq | EKillReq | EFail.
 
 Record st := mkSt { closed : bool; marker : bool; cnt : nat; status : nat; q : list item; hist : list item; rx_open : bool; mlost : bool; ss : list spc; si : list minfo; ds : list dpc; cons : cpc; taken : list item; stop_req : bool; kill_req : bool; exits : list reason; log : list ev }.
@@ -152,9 +152,9 @@ Definition child_done (s : st) (k : child) : bool :=
 (* a thread begins a call: a new frame (send, drain) or an immediate request *)
 Definition do_call (s : st) (c : call) : child * st :=
   match c with
-  | CSend _ _ _ _ _ _ _ =>
+  | CSend _ w _ _ _ _ _ =>
       (KS (length (ss s)),
-       add_log (set_si (set_ss s (ss s ++ [T0])) (si s ++ [info_of c])) (EBegin (length (ss s))))
+       add_log (set_si (set_ss s (ss s ++ [T0])) (si s ++ [info_of c])) (EBegin (length (ss s)) w))
   | CDrain => (KD (length (ds s)), set_ds s (ds s ++ [D0]))
   | CStop => (KNone, add_log (set_stop_req s true) EStopReq)
   | CKill => (KNone, add_log (set_kill_req s true) EKillReq)
@@ -312,3 +312,210 @@ Definition d_done (p : dpc) : bool := match p with DDone _ => true | _ => false 
 Definition all_done (s : st) : bool := forallb s_done (ss s) && forallb d_done (ds s).
 Definition result (s : st) (i : nat) : option res :=
   match nth_error (ss s) i with Some (SDone r) => Some r | _ => None end.
+
+(* ---------- deterministic drivers used by the correspondence runs ----------
+   Every function below is a composition of [step]s, so each state it produces is
+   [run init ls] for some label list (Proofs.exec_reachable). *)
+
+(* the innermost frame that can move on behalf of frame k *)
+Fixpoint leaf (fuel : nat) (s : st) (k : child) : child :=
+  match fuel with
+  | O => k
+  | S f =>
+    match k with
+    | KS i => match nth_error (ss s) i with
+              | Some (S2w ch _) => if child_done s ch then k else leaf f s ch
+              | _ => k
+              end
+    | _ => k
+    end
+  end.
+
+Definition drive1 (s : st) (k : child) : st :=
+  match leaf 64 s k with
+  | KS i => step s (LS i)
+  | KD j => step s (LD j)
+  | KNone => s
+  end.
+
+Definition at_gate (s : st) (k : child) : bool :=
+  match k with
+  | KS i => match nth_error (ss s) i with Some S2g => true | _ => false end
+  | _ => false
+  end.
+
+(* run the call k until it returns (or, for a gated send, until its thread is parked
+   inside box_message) *)
+Fixpoint drive (fuel : nat) (park : bool) (s : st) (k : child) : st :=
+  match fuel with
+  | O => s
+  | S f => if child_done s k then s
+           else if park && at_gate s k then s
+           else drive f park (drive1 s k) k
+  end.
+
+(* let the actor run until it is idle or dead *)
+Fixpoint consume (fuel : nat) (s : st) : st :=
+  match fuel with
+  | O => s
+  | S f =>
+    match cons s with
+    | CRun => let s' := step s LRecv in
+              match cons s' with CRun => s' | _ => consume f s' end
+    | CH _ _ => consume f (step s LH)
+    | CHw _ k _ => if child_done s k then consume f (step s LH) else consume f (drive1 s k)
+    | CExit _ => consume f (step (step (step s LCStopping) LCClose) LFinish)
+    | CDead _ => s
+    end
+  end.
+
+(* driver actions of the harness *)
+Inductive act :=
+| ADo (c : call)        (* the driver performs the call inline, to completion *)
+| AStart (c : call)     (* a new OS thread performs a gated send: runs until parked in box_message *)
+| ARelease (n : nat)    (* the n-th started thread is released and runs to completion *)
+| AConsume.             (* the actor task runs until quiescent *)
+
+Definition FUEL : nat := 4000.
+
+Definition exec_act (xs : st * list nat) (a : act) : st * list nat :=
+  let '(s, started) := xs in
+  match a with
+  | ADo c => let '(k, s') := do_call s c in (drive FUEL false s' k, started)
+  | AStart c => let '(k, s') := do_call s c in
+                (drive FUEL true s' k, started ++ [match k with KS i => i | _ => 0 end])
+  | ARelease n => match nth_error started n with
+                  | Some i => (drive FUEL false s (KS i), started)
+                  | None => (s, started)
+                  end
+  | AConsume => (consume FUEL s, started)
+  end.
+
+Definition exec (acts : list act) : st := fst (fold_left exec_act acts (init, [])).
+
+(* the view compared with the implementation: the event log with payload ids in
+   place of frame indices, and the final lifecycle status *)
+Definition pid_of (s : st) (i : nat) : nat :=
+  match nth_error (si s) i with Some inf => pid inf | None => 0 end.
+Definition res_map (f : nat -> nat) (r : res) : res :=
+  match r with RErr m => RErr (f m) | _ => r end.
+Definition ev_map (f : nat -> nat) (e : ev) : ev :=
+  match e with
+  | EBegin i w => EBegin (f i) w
+  | EEnd i r => EEnd (f i) (res_map f r)
+  | EHandle i => EHandle (f i)
+  | _ => e
+  end.
+Definition view (s : st) : list ev * nat := (map (ev_map (pid_of s)) (log s), status s).
+
+(* all calls have returned and the actor can make no further move on its own *)
+Definition complete (s : st) : bool :=
+  all_done s &&
+  match cons s with
+  | CDead _ => true
+  | CRun => match q s with [] => negb (stop_req s) && negb (kill_req s) | _ => false end
+  | _ => false
+  end.
+
+(* ---------- executable oracles on event logs (model or implementation) ---------- *)
+
+Definition mem (x : nat) (l : list nat) : bool := existsb (Nat.eqb x) l.
+Definition subset (a b : list nat) : bool := forallb (fun x => mem x b) a.
+
+Fixpoint snap_of (i : nat) (l : list (nat * list nat)) : list nat :=
+  match l with
+  | [] => []
+  | (j, sn) :: t => if Nat.eqb i j then sn else snap_of i t
+  end.
+
+(* C02: at most once, never a rejected one, nothing after the exit, real-time order
+   (a send that had returned Ok before send j began is handled before j), and - when the
+   actor is still alive and idle at the end - every Ok send was handled *)
+Record o2 := mkO2 { b_begun : list nat; b_snap : list (nat * list nat); b_ok : list nat;
+                    b_rej : list nat; b_ended : list nat; b_handled : list nat;
+                    b_exited : bool; b_bad : bool }.
+
+Definition o2_init : o2 := mkO2 [] [] [] [] [] [] false false.
+Definition o2_fail (o : o2) : o2 :=
+  mkO2 (b_begun o) (b_snap o) (b_ok o) (b_rej o) (b_ended o) (b_handled o) (b_exited o) true.
+
+Definition o2_step (o : o2) (e : ev) : o2 :=
+  match e with
+  | EBegin i _ =>
+      if mem i (b_begun o) then o2_fail o
+      else mkO2 (i :: b_begun o) ((i, b_ok o) :: b_snap o) (b_ok o) (b_rej o) (b_ended o)
+                (b_handled o) (b_exited o) (b_bad o)
+  | EEnd i r =>
+      if negb (mem i (b_begun o)) || mem i (b_ended o) then o2_fail o
+      else match r with
+           | ROk => mkO2 (b_begun o) (b_snap o) (i :: b_ok o) (b_rej o) (i :: b_ended o)
+                         (b_handled o) (b_exited o) (b_bad o)
+           | RErr m =>
+               if Nat.eqb m i && negb (mem i (b_handled o))
+               then mkO2 (b_begun o) (b_snap o) (b_ok o) (i :: b_rej o) (i :: b_ended o)
+                         (b_handled o) (b_exited o) (b_bad o)
+               else o2_fail o
+           | RInvalid =>
+               if mem i (b_handled o) then o2_fail o
+               else mkO2 (b_begun o) (b_snap o) (b_ok o) (i :: b_rej o) (i :: b_ended o)
+                         (b_handled o) (b_exited o) (b_bad o)
+           end
+  | EHandle i =>
+      if mem i (b_handled o) || mem i (b_rej o) || negb (mem i (b_begun o)) || b_exited o
+         || negb (subset (snap_of i (b_snap o)) (b_handled o))
+      then o2_fail o
+      else mkO2 (b_begun o) (b_snap o) (b_ok o) (b_rej o) (b_ended o) (i :: b_handled o)
+                (b_exited o) (b_bad o)
+  | EExit _ => mkO2 (b_begun o) (b_snap o) (b_ok o) (b_rej o) (b_ended o) (b_handled o) true (b_bad o)
+  | _ => o
+  end.
+
+Definition check_C02 (alive_idle : bool) (l : list ev) : bool :=
+  let o := fold_left o2_step l o2_init in
+  negb (b_bad o) && (if alive_idle then subset (b_ok o) (b_handled o) else true).
+
+(* C07: sends begun after a drain returned get their message back; at most one exit; a
+   Drained exit only after every Ok send was handled; and, when every call has returned
+   and the actor has had its chance to run (complete), a drain without stop / kill /
+   failure ends in exactly one exit with reason Drained *)
+Record o7 := mkO7 { d_drained : bool; d_late : list nat; d_wrong : list nat; d_ok : list nat;
+                    d_handled : list nat; d_exits : list reason; d_interv : bool; d_bad : bool }.
+
+Definition o7_init : o7 := mkO7 false [] [] [] [] [] false false.
+
+Definition reason_drained (r : reason) : bool := match r with RDrained => true | _ => false end.
+
+Definition o7_step (o : o7) (e : ev) : o7 :=
+  match e with
+  | EDrainEnd _ => mkO7 true (d_late o) (d_wrong o) (d_ok o) (d_handled o) (d_exits o) (d_interv o) (d_bad o)
+  | EBegin i w =>
+      mkO7 (d_drained o) (if d_drained o then i :: d_late o else d_late o)
+           (if w then i :: d_wrong o else d_wrong o) (d_ok o) (d_handled o) (d_exits o)
+           (d_interv o) (d_bad o)
+  | EEnd i r =>
+      let good := if mem i (d_late o)
+                  then match r with
+                       | RErr m => Nat.eqb m i
+                       | RInvalid => mem i (d_wrong o)
+                       | ROk => false
+                       end
+                  else true in
+      mkO7 (d_drained o) (d_late o) (d_wrong o)
+           (match r with ROk => i :: d_ok o | _ => d_ok o end) (d_handled o) (d_exits o)
+           (d_interv o) (d_bad o || negb good)
+  | EHandle i => mkO7 (d_drained o) (d_late o) (d_wrong o) (d_ok o) (i :: d_handled o) (d_exits o)
+                      (d_interv o) (d_bad o)
+  | EExit r => mkO7 (d_drained o) (d_late o) (d_wrong o) (d_ok o) (d_handled o) (d_exits o ++ [r])
+                    (d_interv o) (d_bad o || match d_exits o with [] => false | _ => true end)
+  | EStopReq | EKillReq | EFail =>
+      mkO7 (d_drained o) (d_late o) (d_wrong o) (d_ok o) (d_handled o) (d_exits o) true (d_bad o)
+  end.
+
+Definition only_drained (l : list reason) : bool :=
+  match l with [r] => reason_drained r | _ => false end.
+
+Definition check_C07 (compl : bool) (l : list ev) : bool :=
+  let o := fold_left o7_step l o7_init in
+  negb (d_bad o)
+  && (if only_drained (d_exits o) then subset (d_ok o) (d_handled o) else true)
+  && (if compl && d_drained o && negb (d_interv o) then only_drained (d_exits o) else true).
